@@ -56,7 +56,7 @@ CHECKS = {
         "thorough": {
             "harnesses": [("16", "c07_rt_q*"), ("16", "c07_rt_t*"), ("32", "c07_rt_t32_*"),
                           ("real", "c15_real_*")],
-            "jobs": 16, "timeout": 3000, "solvers": ["cadical"],
+            "jobs": 8, "timeout": 3000, "solvers": ["cadical"],
         },
         "rule": ("case = (l0, l1, l2): three entries written back to back through the real RecordWriter into "
                  "zero-prefilled blocks and read back through the real RecordReader; l0 sets the block alignment "
